@@ -205,6 +205,23 @@ class Builder:
             return RichChkEditor().replace_chk_section(new, rich)
         if op[0] == "save_reload":
             return SC.load(SC.save(rich))
+        if op[0] == "put_in_sections":
+            # implementation-only (no model counterpart): the caller builds rich sections by hand, holding pool
+            # objects exactly as they are (whatever index they carry), and swaps them in
+            from richchk.model.richchk.mrgn.rich_mrgn_section import RichMrgnSection
+            from richchk.model.richchk.swnm.rich_swnm_section import RichSwnmSection
+            from richchk.model.richchk.uprp.rich_uprp_section import RichUprpSection
+            want = op[1]
+            for cls, key, mk in ((RichMrgnSection, "locs", lambda sec, objs: RichMrgnSection(_locations=list(sec.locations) + objs)),
+                                 (RichUprpSection, "cuwps", lambda sec, objs: RichUprpSection(_cuwp_slots=list(sec.cuwp_slots) + objs)),
+                                 (RichSwnmSection, "switches", lambda sec, objs: RichSwnmSection(_switches=list(sec.switches) + objs))):
+                if want.get(key):
+                    sec = self.existing(rich, cls)
+                    if sec is None:
+                        raise ValueError("no section for " + key)
+                    objs = [getattr(self, key)[i] for i in want[key]]
+                    rich = RichChkEditor().replace_chk_section(mk(sec, objs), rich)
+            return rich
         if op[0] == "upsert_units":
             cls, ed = (RichUnisSection, RichUnisEditor) if op[1] == "UNIS" else (RichUnixSection, RichUnixEditor)
             sec = self.existing(rich, cls)
